@@ -124,13 +124,16 @@ func runC12(c *Ctx) {
 	r := c.R
 	w := &c12{c: c, ackedIDs: map[int]bool{}}
 	// ---- configuration (swarm) ----
-	switch g.Weighted(6, 3, 1) {
+	switch g.Weighted(12, 6, 2, 3) {
 	case 0:
 		w.size = 1 + g.Draw(32)
 	case 1:
 		w.size = pick(g, 8, 16, 64, 5, 100)
-	default:
+	case 2:
 		w.size = 0 // default 256 kB
+	default:
+		// sizes at and around power-of-two / page boundaries, and plainly odd ones
+		w.size = pick(g, 255, 256, 257, 1000, 4095, 4096, 4097, 5000, 8191, 8192, 8193, 10000, 12289, 65537)
 	}
 	frag := 1 + g.Draw(3)
 	nTasks := 1 + g.Weighted(2, 4, 3, 1)
